@@ -7,6 +7,7 @@ require (
 	github.com/aukilabs/go-tooling v0.16.2
 	github.com/aukilabs/hagall v0.0.0
 	github.com/aukilabs/hagall-common v0.2.2
+	github.com/prometheus/client_golang v1.20.5
 	golang.org/x/net v0.38.0
 	golang.org/x/tools v0.29.0
 	google.golang.org/protobuf v1.36.2
@@ -20,7 +21,6 @@ require (
 	github.com/google/uuid v1.6.0 // indirect
 	github.com/holiman/uint256 v1.3.2 // indirect
 	github.com/munnerz/goautoneg v0.0.0-20191010083416-a7dc8b61c822 // indirect
-	github.com/prometheus/client_golang v1.20.5 // indirect
 	github.com/prometheus/client_model v0.6.1 // indirect
 	github.com/prometheus/common v0.61.0 // indirect
 	github.com/prometheus/procfs v0.15.1 // indirect
